@@ -55,6 +55,10 @@ struct UnitToml {
     /// `Option` (for a `Result` or an iterator the rewritten text does not compile => undecided)
     #[serde(default)]
     expand_option_combinators: bool,
+    /// R25: inside closure bodies a call of method X is renamed to the mapped name: a stand-in WITHOUT ghost parameters (closures
+    /// cannot carry the tracked ghost heap), whose result is therefore unconstrained
+    #[serde(default)]
+    closure_method_map: BTreeMap<String, String>,
     /// R22: a chain of closure-free std adapter calls, e.g. `into_values().collect()`, is renamed to ONE stand-in method
     /// (whose specification states the std semantics of the chain; trusted)
     #[serde(default)]
@@ -314,6 +318,7 @@ struct Rewriter<'a> {
     expand_map_or_else: bool,
     expand_option_combinators: bool,
     chainmap: Vec<(syn::Expr, syn::Expr)>,
+    closure_method_map: BTreeMap<String, String>,
 }
 
 /// chainmap key/value: an expression over metavariables; a text that starts with a method name gets the receiver `__`
@@ -334,7 +339,7 @@ fn match_pat(pat: &syn::Expr, e: &syn::Expr, binds: &mut BTreeMap<String, syn::E
     }
     match (pat, e) {
         (syn::Expr::MethodCall(p), syn::Expr::MethodCall(m)) => {
-            p.method == m.method && p.turbofish.is_none() && m.turbofish.is_none() && p.args.len() == m.args.len()
+            p.method == m.method && p.turbofish.is_none() && p.args.len() == m.args.len()
                 && match_pat(&p.receiver, &m.receiver, binds)
                 && p.args.iter().zip(m.args.iter()).all(|(a, b)| match_pat(a, b, binds))
         }
@@ -690,6 +695,18 @@ impl<'a> VisitMut for Rewriter<'a> {
             }
             n += 1;
         }
+        if !self.closure_method_map.is_empty() {
+            struct Ren<'m> { map: &'m BTreeMap<String, String>, hit: bool }
+            impl<'m> VisitMut for Ren<'m> {
+                fn visit_expr_method_call_mut(&mut self, m: &mut syn::ExprMethodCall) {
+                    if let Some(t) = self.map.get(&m.method.to_string()) { m.method = syn::Ident::new(t, m.method.span()); self.hit = true; }
+                    visit_mut::visit_expr_method_call_mut(self, m);
+                }
+            }
+            let mut r = Ren { map: &self.closure_method_map, hit: false };
+            r.visit_expr_mut(&mut c.body);
+            if r.hit { self.rules.insert("R25".into()); }
+        }
         visit_mut::visit_expr_closure_mut(self, c);
     }
 
@@ -718,6 +735,21 @@ impl<'a> VisitMut for Rewriter<'a> {
     }
 
     fn visit_expr_mut(&mut self, e: &mut syn::Expr) {
+        // R24: `for .. { A; if c { continue; } B }` becomes `for .. { A; if c { } else { B } }` (Verus has no `continue` in for-loops)
+        if let syn::Expr::ForLoop(f) = e {
+            loop {
+                let pos = f.body.stmts.iter().position(|st| match st {
+                    syn::Stmt::Expr(syn::Expr::If(i), _) => i.else_branch.is_none() && i.then_branch.stmts.len() == 1
+                        && matches!(&i.then_branch.stmts[0], syn::Stmt::Expr(syn::Expr::Continue(c), _) if c.label.is_none()),
+                    _ => false,
+                });
+                let Some(pos) = pos else { break };
+                let rest: Vec<syn::Stmt> = f.body.stmts.split_off(pos + 1);
+                let cond = match f.body.stmts.pop() { Some(syn::Stmt::Expr(syn::Expr::If(i), _)) => (*i.cond).clone(), _ => unreachable!() };
+                f.body.stmts.push(syn::Stmt::Expr(syn::parse_quote!(if #cond { } else { #(#rest)* }), None));
+                self.rules.insert("R24".into());
+            }
+        }
         // R7: drop `.await`
         if !self.async_projection.is_empty() {
             if let syn::Expr::Await(a) = e {
@@ -1450,6 +1482,7 @@ fn main() {
             deref_store: unit_toml.deref_store,
             expand_map_or_else: unit_toml.expand_map_or_else,
             expand_option_combinators: unit_toml.expand_option_combinators,
+            closure_method_map: unit_toml.closure_method_map.clone(),
             chainmap: unit_toml.chainmap.iter().map(|(k, v)| (parse_chain(k), parse_chain(v))).collect(),
         };
         let extra_attrs: Vec<syn::Attribute> = spec
